@@ -499,6 +499,6 @@ func histGen(r *rand.Rand, n int, emit func(core.Case)) {
 				steps = append(steps, randMutation(r, md, o))
 			}
 		}
-		emit(core.Case{"type": name, "dyn": dyn, "steps": steps})
+		emit(core.Case{"type": name, "dyn": dyn, "steps": steps, "lastonly": r.IntN(2) == 0})
 	}
 }
